@@ -362,6 +362,19 @@ def run_case(ctx, case, rng=None):
             ctx.tag("scale:near-float-max")
             same("scale-near-float-max", decomp(crps(yin * fx, x * fx))[0], factor=fx,
                  tolrel=1e-12)
+        # ... and right up to it: the largest value becomes 2^1020 .. 2^1021 (a quarter
+        # of the largest double), so that every difference of two values is still
+        # finite but a handful of them added together is not
+        with np.errstate(all="ignore"):
+            vmax = float(max(np.nanmax(np.abs(yin)) if nv else 0.0, np.max(np.abs(x))))
+        if np.isfinite(vmax) and vmax > 0 and np.all(np.abs(d) * 2.0 ** 900 > 1e-290):
+            e4 = 1021 - int(math.ceil(math.log2(vmax)))
+            if 0 < e4 <= 1023:
+                fy = float(2.0 ** e4)
+                ctx.tag("scale:largest-value-quarter-of-float-max")
+                d4 = decomp(crps(yin * fy, x * fy))[0]
+                # compared after scaling back (exact), so that nothing overflows here
+                same("scale-to-quarter-of-float-max", d4 * 2.0 ** -e4, tolrel=1e-12)
     f3 = float(rng.uniform(0.1, 37.0))
     same("scale", decomp(crps(yin * f3, x * f3))[0], factor=f3, tolrel=1e-10)
     # rows with a missing observation are ignored
